@@ -18,13 +18,15 @@ import ast
 
 from ..extract import HEADER, Src
 
-PINNED = {"key": "name", "skips_empty": True, "load_copies": True, "from_copy": True, "copies_other": True}
+PINNED = {"key": "name", "skips_empty": True, "load_copies": True, "from_copy": True, "copies_other": True,
+          "frame_eq": "identity", "names_cached": True}
 
 
 def pinned_json():
     return {"profglue.accumulator_key": PINNED["key"], "profglue.skips_empty": PINNED["skips_empty"],
             "profglue.load_copies": PINNED["load_copies"], "profglue.sum_from_copy": PINNED["from_copy"],
-            "profglue.sum_copies_other_histogram": PINNED["copies_other"]}
+            "profglue.sum_copies_other_histogram": PINNED["copies_other"],
+            "profglue.frame_equality": PINNED["frame_eq"], "profglue.column_names_cached": PINNED["names_cached"]}
 
 
 class Shape(Exception):
@@ -121,6 +123,42 @@ def _add(fn):
     return from_copy, _copy_of(keeps[0].value, other + ".histogram")
 
 
+def _frame_class(tree):
+    cls = [n for n in tree.body if isinstance(n, ast.ClassDef) and n.name == "DataFrame"]
+    if len(cls) != 1:
+        raise Shape("class DataFrame")
+    return cls[0]
+
+
+def _frame_equality(tree):
+    """'identity': the class DataFrame (no base classes but object) defines no `__eq__`, so two frame objects are equal only
+    when they are one object; 'rows': an `__eq__` that compares what the frames hold (rows / hash / length) and never
+    looks at the schema; anything else is not recognised."""
+    cls = _frame_class(tree)
+    if any(ast.unparse(b) != "object" for b in cls.bases):
+        raise Shape("DataFrame has base classes")
+    eqs = [n for n in cls.body if isinstance(n, (ast.FunctionDef, ast.AsyncFunctionDef)) and n.name == "__eq__"]
+    eqs += [n for n in cls.body if isinstance(n, ast.Assign) and any(ast.unparse(t) == "__eq__" for t in n.targets)]
+    if not eqs:
+        return "identity"
+    if len(eqs) == 1 and isinstance(eqs[0], ast.FunctionDef):
+        txt = ast.unparse(eqs[0])
+        if "schema" not in txt and "column_names" not in txt and ("_rows" in txt or "hash(" in txt or "rowcount" in txt):
+            return "rows"
+    raise Shape("DataFrame.__eq__")
+
+
+def _names_cached(tree):
+    """`DataFrame.column_names` is wrapped in `single_item_cache` (keyed on the frame argument by `==`)."""
+    fns = [n for n in _frame_class(tree).body if isinstance(n, ast.FunctionDef) and n.name == "column_names"]
+    if len(fns) != 1:
+        raise Shape("DataFrame.column_names")
+    decos = [ast.unparse(d) for d in fns[0].decorator_list]
+    if any(d not in ("property", "single_item_cache") for d in decos):
+        raise Shape("decorators of column_names: %r" % (decos,))
+    return "single_item_cache" in decos
+
+
 def generate(o):
     prof = Src("orso/profiler/profiler.py")
     dist = Src("orso/profiler/distogram/__init__.py")
@@ -129,6 +167,10 @@ def generate(o):
     load = o.item("profglue.load_copies", lambda: _load(dist.func("load")), PINNED["load_copies"])
     fromc = o.item("profglue.sum_from_copy", lambda: _add(prof.func("__add__", "ColumnProfile"))[0], PINNED["from_copy"])
     coth = o.item("profglue.sum_copies_other_histogram", lambda: _add(prof.func("__add__", "ColumnProfile"))[1], PINNED["copies_other"])
+
+    frame = Src("orso/dataframe.py")
+    feq = o.item("profglue.frame_equality", lambda: _frame_equality(frame.tree), PINNED["frame_eq"])
+    ncache = o.item("profglue.column_names_cached", lambda: _names_cached(frame.tree), PINNED["names_cached"])
 
     def b(x):
         return "true" if x else "false"
@@ -147,5 +189,10 @@ def generate(o):
     t += "def sumStartsFromCopy : Bool := %s\n" % b(fromc)
     t += "/-- where `__add__` keeps the other side's histogram as it is (`elif profile.histogram:`) it makes its own list of it -/\n"
     t += "def sumCopiesOtherHistogram : Bool := %s\n" % b(coth)
+    t += ("/-- two `DataFrame` objects compare equal only when they are one object (the class defines no `__eq__`); false: frames "
+          "holding equal rows compare equal, whatever their schemas -/\n")
+    t += "def frameEqIsIdentity : Bool := %s\n" % b(feq == "identity")
+    t += "/-- `DataFrame.column_names` is answered through `tools.single_item_cache` (one entry, keyed on the frame by `==`) -/\n"
+    t += "def columnNamesCached : Bool := %s\n" % b(ncache)
     t += "end Gen.ProfileGlue\n"
     o.files["ProfileGlue.lean"] = t
